@@ -35,8 +35,8 @@ def run(chk: Check) -> None:
     from .c13 import resume_value_reaches_future
     resume_value_reaches_future(chk, 'SYM-waiting-restored')
     # "no completed step is executed again": the outcome of a step interrupted by a pause is entered before anything (a listener, a hook) can take a checkpoint (shared with C05)
-    from .c05 import no_step_lost
-    no_step_lost(chk)
+    from .c05 import outcome_entered_before_pause_hooks
+    outcome_entered_before_pause_hooks(chk, 'SYM-no-step-twice')
     # a Bundle that is unbundled more than once ("possibly several times in a row") must give the same process each time: what unbundle() hands to the
     # load path has to be detached from the bundle, because load_members / the context mixin take values out of the saved state without copying
     ub = prog.func('persistence.Bundle.unbundle')
